@@ -124,6 +124,7 @@ def ops() -> list[Any]:
             out.append(("update", hid, st))
     out.append(("update", "h1", "cancelled"))
     out.append(("rerun", "h1"))  # same handler id, new run id, running again
+    out += [("move", "h1", "wfb"), ("move", "h3", "wfa")]  # same handler id written again under another workflow name
     out += [("status", "r1", "completed"), ("status", "r2", "failed"), ("status", "r9", "completed"), ("idle", "r1", True), ("idle", "r1", False),
             ("idle", "r3", True)]
     for i in range(len(DELETES)):
@@ -138,6 +139,8 @@ def apply_store(store: Any, op: Any) -> Any:
             return await store.update(PersistentHandler(handler_id=op[1], workflow_name=wf, status=op[2], run_id=run, started_at=T0))
         if op[0] == "rerun":
             return await store.update(PersistentHandler(handler_id=op[1], workflow_name=HANDLERS[op[1]][1], status="running", run_id="r1b", started_at=T0))
+        if op[0] == "move":
+            return await store.update(PersistentHandler(handler_id=op[1], workflow_name=op[2], status="running", run_id=HANDLERS[op[1]][0], started_at=T0))
         if op[0] == "status":
             return await store.update_handler_status(op[1], status=op[2])
         if op[0] == "idle":
@@ -156,6 +159,9 @@ def apply_ref(ref: Ref, op: Any) -> Any:
         return None
     if op[0] == "rerun":
         ref.write(op[1], {"handler_id": op[1], "workflow_name": HANDLERS[op[1]][1], "status": "running", "run_id": "r1b", "idle": None})
+        return None
+    if op[0] == "move":
+        ref.write(op[1], {"handler_id": op[1], "workflow_name": op[2], "status": "running", "run_id": HANDLERS[op[1]][0], "idle": None})
         return None
     if op[0] in ("status", "idle"):
         hs = [h for h in ref.h.values() if h["run_id"] == op[1]]
